@@ -192,7 +192,7 @@ class HypGen(object):
   def __init__(self, draw, st):
     self.draw, self.st = draw, st
     leaf = st.one_of(st.none(), st.booleans(), st.integers(-10, 10 ** 13), st.text(max_size=3),
-                     st.floats(allow_nan=False), st.sampled_from([1e400, -1e400, 2 ** 70, 0.5]))
+                     st.floats(allow_nan=False), st.sampled_from([1e400, -1e400, 2 ** 70, 10 ** 400, 0.5]))
     self.jsonval = st.recursive(
       leaf, lambda ch: st.one_of(st.lists(ch, max_size=3),
                                  st.dictionaries(st.sampled_from(KEYS + ["a"]), ch, max_size=4)),
